@@ -296,9 +296,9 @@ type c16Obs struct {
 
 // c16Cut describes an operation the harness interrupted (fault or crash).
 type c16Cut struct {
-	Kind          string            `json:"kind"` // "fault" | "crash"
-	At            string            `json:"at"`
-	Target        string            `json:"target"`
+	Kind          string `json:"kind"` // "fault" | "crash"
+	At            string `json:"at"`
+	Target        string `json:"target"`
 	numBefore     map[string]*big.Int
 	NumBefore     map[string]string `json:"crl_number_before"`
 	RecordExisted map[string]bool   `json:"record_existed"`
@@ -1602,7 +1602,7 @@ func (w *c16World) check(at string) {
 				extra["f5_signature"] = map[string]any{
 					"revocation_record_exists": true, "auto_rebuild": false, "crl_disabled": false,
 					"operation_interrupted_after_record_was_written": w.cut.Kind + " " + w.cut.At,
-					"crl_number_before_interruption": nb.String(), "crl_number_served_now": rl.Number.String(),
+					"crl_number_before_interruption":                 nb.String(), "crl_number_served_now": rl.Number.String(),
 					"no_complete_build_succeeded_since": true,
 				}
 			}
